@@ -32,7 +32,7 @@ PROP = "C13"
 
 
 def graph_units(tier):
-    cfgp = os.path.join(vlib.BUILD, "graphs-cfg13.json")
+    cfgp = os.path.join(vlib.TMP, "graphs-cfg13.json")
     json.dump({"edges": list(c03.EDGES), "dplaces": ["default", "dir", "file", "same_as_root"], "rplaces": ["default", "nested_file"],
                "dirs": ["relative"], "placed": c03.PLACED[:4]}, open(cfgp, "w"))
     r = vlib.run_tlc("Graphs", "Graphs.cfg", workers=4, env={"VERIF_CFG": cfgp}, timeout=600, metatag="c13g")
@@ -78,9 +78,9 @@ def thread_runs(tier, seed):
                     plans[k % nth].append(dict(op="call", entry="export_all", ty=r_, env=None, dir=None, env_skip=True))
                 runs.append({"rid": len(runs), "plans": plans, "pauses": [{"thread": rnd.randint(1, nth), "point": "Unlock", "nth": rnd.randint(1, 3), "ms": 2}],
                              "cond": "threads=%d order#%d" % (nth, rep)})
-        rpath = os.path.join(vlib.BUILD, "c13-runs.ndjson")
-        opath = os.path.join(vlib.BUILD, "c13-obs.ndjson")
-        bpath = os.path.join(vlib.BUILD, "c13-blobs.json")
+        rpath = os.path.join(vlib.TMP, "c13-runs.ndjson")
+        opath = os.path.join(vlib.TMP, "c13-obs.ndjson")
+        bpath = os.path.join(vlib.TMP, "c13-blobs.json")
         vlib.write_ndjson(rpath, runs)
         if subprocess.run([u.rt, "threads", u.sandbox, rpath, opath, bpath]).returncode != 0:
             raise ToolError("rt threads failed")
@@ -144,7 +144,7 @@ def run(tier):
             if k == "OK":
                 orders.setdefault(it, set()).add(c10_deps(txt))
     multi = sum(1 for s in orders.values() if len(s) > 1)
-    tp = os.path.join(vlib.BUILD, "det-trace.ndjson")
+    tp = os.path.join(vlib.TMP, "det-trace.ndjson")
     vlib.write_ndjson(tp, recs)
     a = vlib.run_tlc("Determinism", "Determinism.cfg", workers=8, env={"VERIF_TRACE": tp}, timeout=1800, tags=("BAD",), metatag="c13a")
     vlib.tlc_must_succeed(a, "Determinism")
